@@ -45,6 +45,7 @@ CONSTANTS
  Aead = TRUE
  CheckIdent = TRUE
  RelayOnce = TRUE
+ CandsGuard = TRUE
  SuspendJoin = %(suspend_join)s
  JoinCacheFirst = TRUE
  AutoTimers = FALSE
@@ -64,6 +65,7 @@ PROPERTY EntriesStable
 PROPERTY DestroyOnlyFromNeighbour
 PROPERTY UnknownCellsInert
 PROPERTY AnswerMustMatch
+PROPERTY HopByRightAnswer
 PROPERTY JoinLimit
 """
 
